@@ -1,6 +1,7 @@
 package main
 
 import (
+	"fmt"
 	"go/ast"
 	"go/token"
 	"go/types"
@@ -1622,14 +1623,27 @@ func checkNoReuseAfterSend(c *Ctx, rule string, pkgs ...string) int {
 				if v == nil {
 					v, _ = info.Defs[id].(*types.Var)
 				}
-				call, ok := ast.Unparen(as.Rhs[0]).(*ast.CallExpr)
-				if v == nil || !ok || calleeID(info, call) != "builtin.append" || len(call.Args) < 1 {
+				if v == nil {
 					return true
 				}
-				if se, ok := ast.Unparen(call.Args[0]).(*ast.SliceExpr); ok && isVar(info, se.X, v) && se.Low == nil && se.High != nil {
-					if tv, ok := info.Types[se.High]; ok && tv.Value != nil && tv.Value.ExactString() == "0" {
-						recycled[v] = as
+				isReset := func(e ast.Expr) bool {
+					se, ok := ast.Unparen(e).(*ast.SliceExpr)
+					if !ok || !isVar(info, se.X, v) || se.Low != nil || se.High == nil {
+						return false
 					}
+					tv, ok := info.Types[se.High]
+					return ok && tv.Value != nil && tv.Value.ExactString() == "0"
+				}
+				if isReset(as.Rhs[0]) { // x = x[:0]
+					recycled[v] = as
+					return true
+				}
+				call, ok := ast.Unparen(as.Rhs[0]).(*ast.CallExpr)
+				if !ok || calleeID(info, call) != "builtin.append" || len(call.Args) < 1 {
+					return true
+				}
+				if isReset(call.Args[0]) { // x = append(x[:0], …)
+					recycled[v] = as
 				}
 				return true
 			})
@@ -1641,18 +1655,22 @@ func checkNoReuseAfterSend(c *Ctx, rule string, pkgs ...string) int {
 				sent := false
 				var sendPos token.Pos
 				ast.Inspect(f.Decl.Body, func(nd ast.Node) bool {
-					snd, ok := nd.(*ast.SendStmt)
-					if !ok {
-						return true
-					}
-					if usesObj(info, snd.Value, v) {
-						sent, sendPos = true, snd.Pos()
+					switch x := nd.(type) {
+					case *ast.SendStmt:
+						if usesObj(info, x.Value, v) {
+							sent, sendPos = true, x.Pos()
+						}
+					case *ast.GoStmt:
+						// handed to (or captured by) a goroutine
+						if usesObj(info, x.Call, v) {
+							sent, sendPos = true, x.Pos()
+						}
 					}
 					return true
 				})
 				c.check(!sent, rule, f.ID+":"+v.Name(), p.Pos(at.Pos()),
 					"the recycled slice never leaves the goroutine",
-					"slice `"+v.Name()+"` is recycled in place (append(x[:0], …)) and also sent on a channel (at "+p.Pos(sendPos)+"): the receivers still read the previous contents when the next page overwrites them — items are lost or duplicated without any error")
+					"slice `"+v.Name()+"` is recycled in place (x[:0]) and also handed to another goroutine (channel send or go statement at "+p.Pos(sendPos)+"): the receiver still reads the previous contents when the next batch overwrites them — items are lost or duplicated without any error")
 			}
 		}
 	}
@@ -1721,11 +1739,13 @@ func checkWriterChannelsUnbuffered(c *Ctx, rule string) {
 		}
 		info := f.Info()
 		check := func(field string, val ast.Expr, at ast.Node) {
-			if field != "errC" && field != "flushChan" {
-				return
-			}
 			call, ok := ast.Unparen(val).(*ast.CallExpr)
 			if !ok || calleeID(info, call) != "builtin.make" {
+				return
+			}
+			// the hand-over channels, told apart by what they carry: a flushed leaf's key (blobFlush) or its error
+			ch, ok := info.TypeOf(val).Underlying().(*types.Chan)
+			if !ok || !(isErrorType(ch.Elem()) || namedTypeID(ch.Elem()) == "pkg/cafs.blobFlush") {
 				return
 			}
 			n++
@@ -2018,27 +2038,34 @@ func checkShortReadIsNotEOF(c *Ctx, rule string) {
 func checkCacheOnlyVerifiedLeaves(c *Ctx, rule string) {
 	p := c.P
 	n := 0
+	// the two function-valued fields of chunkReader are told apart by their signatures (never by name):
+	// the cache insertion takes (Key, LeafBuffer) and returns nothing, the leaf loader returns (LeafBuffer, bool, error)
+	fieldCallSig := func(info *types.Info, call *ast.CallExpr) *types.Signature {
+		sel, ok := ast.Unparen(call.Fun).(*ast.SelectorExpr)
+		if !ok {
+			return nil
+		}
+		s := info.Selections[sel]
+		if s == nil || s.Kind() != types.FieldVal || namedTypeID(s.Recv()) != "pkg/cafs.chunkReader" {
+			return nil
+		}
+		sig, _ := s.Type().Underlying().(*types.Signature)
+		return sig
+	}
 	isAdd := func(info *types.Info) func(ast.Node) bool {
 		return func(nd ast.Node) bool {
 			call, ok := nd.(*ast.CallExpr)
 			if !ok {
 				return false
 			}
-			sel, ok := ast.Unparen(call.Fun).(*ast.SelectorExpr)
-			if !ok {
-				return false
-			}
-			s := info.Selections[sel]
-			return s != nil && s.Kind() == types.FieldVal && s.Obj().Name() == "addToCache" && namedTypeID(s.Recv()) == "pkg/cafs.chunkReader"
+			sig := fieldCallSig(info, call)
+			return sig != nil && sig.Results().Len() == 0 && sig.Params().Len() == 2 &&
+				namedTypeID(sig.Params().At(0).Type()) == "pkg/cafs.Key" && namedTypeID(sig.Params().At(1).Type()) == "pkg/cafs.LeafBuffer"
 		}
 	}
 	isReadLeaf := func(b *Body, call *ast.CallExpr) bool {
-		sel, ok := ast.Unparen(call.Fun).(*ast.SelectorExpr)
-		if !ok {
-			return false
-		}
-		s := b.Info().Selections[sel]
-		return s != nil && s.Kind() == types.FieldVal && s.Obj().Name() == "readLeaf"
+		sig := fieldCallSig(b.Info(), call)
+		return sig != nil && sig.Results().Len() == 3 && namedTypeID(sig.Results().At(0).Type()) == "pkg/cafs.LeafBuffer" && isErrorType(sig.Results().At(2).Type())
 	}
 	for _, f := range p.FuncsIn("pkg/cafs") {
 		if f.Decl.Body == nil {
@@ -2183,7 +2210,7 @@ func checkTrackerTxnCommitted(c *Ctx, rule string) {
 				if strings.HasSuffix(id, "go-immutable-radix.Txn.Commit") {
 					// must be stored back in the receiver's tree
 					if as, ok := n.(*ast.AssignStmt); ok && len(as.Lhs) == 1 {
-						if sel, ok := ast.Unparen(as.Lhs[0]).(*ast.SelectorExpr); ok && describeExpr(f, sel, 0) == "recv.tracker" {
+						if sel, ok := ast.Unparen(as.Lhs[0]).(*ast.SelectorExpr); ok && describeExpr(f, sel.X, 0) == "recv" && strings.HasSuffix(types.TypeString(info.TypeOf(sel), nil), "go-immutable-radix.Tree") {
 							s = closed
 						}
 					}
@@ -2200,4 +2227,859 @@ func checkTrackerTxnCommitted(c *Ctx, rule string) {
 	c.check(bad == 0 && nOpen > 0, rule, f.ID, p.Pos(f.Decl.Pos()),
 		"every exit after the transaction was opened passes t.tracker = txn.Commit()",
 		"trackWrite can return after opening its transaction without committing it into t.tracker: the markers deleted by the walk stay in the tree, so a write that bridges two tracked ranges leaves the gap reported as base data")
+}
+
+// checkHasIsExistenceOnly (C16): localfs Has answers "is there a record under this key": the verdict depends on Stat
+// (of the key itself) succeeding and on the entry not being a directory, never on the record's contents — an empty
+// value is a value (Get, Keys and create-if-absent Put all see it).
+func checkHasIsExistenceOnly(c *Ctx, rule string) {
+	p := c.P
+	f := p.Func("pkg/storage/localfs.localFS.Has")
+	info := f.Info()
+	b := p.BodyOf(f)
+	bad := ""
+	nStat := 0
+	ast.Inspect(f.Decl.Body, func(nd ast.Node) bool {
+		switch x := nd.(type) {
+		case *ast.CallExpr:
+			id := calleeID(info, x)
+			if strings.HasSuffix(id, "afero.Fs.Stat") {
+				nStat++
+				if len(x.Args) != 1 || describeExpr(f, x.Args[0], 0) != "param#1" {
+					bad = "Stat of something else than the key"
+				}
+			}
+		case *ast.SelectorExpr:
+			if s := info.Selections[x]; s != nil && s.Kind() == types.MethodVal && namedTypeID(s.Recv()) == "io/fs.FileInfo" {
+				if x.Sel.Name != "IsDir" {
+					bad = "FileInfo." + x.Sel.Name + "()"
+				}
+			}
+		}
+		return true
+	})
+	// every success return is a function of IsDir only: `true`, `false` after a not-exist test, or !fi.IsDir()
+	nRet := 0
+	ast.Inspect(f.Decl.Body, func(nd ast.Node) bool {
+		r, ok := nd.(*ast.ReturnStmt)
+		if !ok || len(r.Results) != 2 || b.classifyReturn(r) == retFailure {
+			return true
+		}
+		nRet++
+		d := describeExprAt(f, r.Results[0])
+		switch {
+		case d == "const:false", d == "const:true":
+		case strings.HasSuffix(d, ".IsDir()") && strings.HasPrefix(d, "!"):
+		default:
+			if bad == "" {
+				bad = "a verdict computed as " + exprString(r.Results[0])
+			}
+		}
+		return true
+	})
+	c.check(bad == "" && nStat == 1 && nRet >= 2, rule, f.ID, p.Pos(f.Decl.Pos()),
+		"the verdict of Has is: Stat(key) succeeded and the entry is not a directory",
+		"localfs Has depends on "+bad+": a key whose record exists (Get, Keys and a create-if-absent Put all see it) can be reported absent — e.g. an empty value — so the store no longer behaves as a map")
+}
+
+// checkCollectSplitsAlwaysLists (C12): the set of splits merged by a commit is read from the store by that commit:
+// every success return of collectSplits follows a ListSplitsApply over the diamond (no cached result of an earlier
+// attempt: splits that completed in between would be left out of the bundle and of diamond-done).
+func checkCollectSplitsAlwaysLists(c *Ctx, rule string) {
+	p := c.P
+	f := p.Func("pkg/core.Diamond.collectSplits")
+	b := p.BodyOf(f)
+	bad, nS := b.mustPassBeforeSuccess(callTo("pkg/core.ListSplitsApply"))
+	c.check(len(bad) == 0 && nS > 0, rule, f.ID, p.Pos(f.Decl.Pos()),
+		"every success return ("+itoa(nS)+") of collectSplits follows ListSplitsApply",
+		"collectSplits can succeed without listing the splits from the store (e.g. from a copy kept by an earlier attempt): a split completed since then is missing from the committed bundle and from the splits recorded in diamond-done")
+	// and the listing is over this diamond
+	ok := false
+	for _, call := range b.findCalls(callTo("pkg/core.ListSplitsApply"), false) {
+		if len(call.Args) >= 3 && describeExpr(f, call.Args[0], 0) == "recv.RepoID" && describeExpr(f, call.Args[1], 0) == "recv.DiamondDescriptor.DiamondID" {
+			ok = true
+		}
+	}
+	c.check(ok, rule, f.ID+":own-diamond", p.Pos(f.Decl.Pos()), "the listing is over the receiver's repo and diamond", "collectSplits lists the splits of another repo/diamond than the receiver's")
+}
+
+// checkBlobPutsIdempotent (C01, C15): leaf and root blobs are content-addressed, and several writers may hold the same
+// content at once (shared leaves between files, concurrent uploads). The existence test and the write are not atomic,
+// so the writes themselves must be idempotent: every Put/PutCRC of pkg/cafs passes the constant OverWrite — with
+// NoOverWrite the loser of the race fails its whole upload with "exists".
+func checkBlobPutsIdempotent(c *Ctx, rule string) {
+	p := c.P
+	n := 0
+	for _, s := range enumPutSites(p, "pkg/cafs") {
+		n++
+		c.check(s.Mode == "OverWrite", rule, s.Key, p.Pos(s.Call.Pos()),
+			"blob written with the constant OverWrite",
+			"a content-addressed blob is written with mode "+s.Mode+": the has-then-put of the writer is not atomic, so of two writers of the same content (shared leaf, concurrent uploads) one fails with 'exists' and its whole upload is reported failed")
+	}
+	if n < 3 {
+		c.fail(rule, "pkg/cafs:put-sites", "-", "expected at least 3 blob put sites in pkg/cafs, found "+itoa(n))
+	}
+}
+
+// checkLocalfsPutOpens (C16, shared with C15 for the staging clause): the two OpenFile operands of localfs Put.
+//   - put.exclusive.every-open / put.exclusive.flag: on a create-if-absent write the file opened is the key itself, with
+//     flags holding O_CREATE|O_WRONLY and O_EXCL (unconditionally, or added exactly under `if exclusive`);
+//   - put.overwrite.staged: an overwrite never opens (and so truncates) the key in place: the name opened on the
+//     non-exclusive path is a staging name, moved onto the key by one Rename(name, key);
+//   - put.no-remove: Put removes or renames nothing but its own staging name, and only on the non-exclusive path
+//     (an exclusive writer that lost the race must not unlink the winner's record).
+func checkLocalfsPutOpens(c *Ctx, f *FuncInfo) {
+	p := c.P
+	info := f.Info()
+	b := p.BodyOf(f)
+	exclParam := "param#3"
+	// is node n only executed when exclusive is false?
+	var nonExclusiveOnly func(n ast.Node) bool
+	nonExclusiveOnly = func(n ast.Node) bool {
+		for child, par := n, f.parentOf(n); par != nil; child, par = par, f.parentOf(par) {
+			switch x := par.(type) {
+			case *ast.IfStmt:
+				d := describeExpr(f, x.Cond, 0)
+				if child == ast.Node(x.Body) && d == "!"+exclParam {
+					return true
+				}
+				if x.Else != nil && child == x.Else && d == exclParam {
+					return true
+				}
+			case *ast.BlockStmt:
+				// an earlier `if exclusive { …; return }` in the same block
+				for _, st := range x.List {
+					if st == child || st.Pos() >= child.Pos() {
+						break
+					}
+					if ifs, ok := st.(*ast.IfStmt); ok && ifs.Init == nil && describeExpr(f, ifs.Cond, 0) == exclParam && len(ifs.Body.List) > 0 {
+						if _, isRet := ifs.Body.List[len(ifs.Body.List)-1].(*ast.ReturnStmt); isRet {
+							return true
+						}
+					}
+				}
+			}
+		}
+		return false
+	}
+	var flagVar, nameVar *types.Var
+	nOpen := 0
+	ast.Inspect(f.Decl.Body, func(nd ast.Node) bool {
+		call, ok := nd.(*ast.CallExpr)
+		if !ok || !strings.HasSuffix(calleeID(info, call), "afero.Fs.OpenFile") || len(call.Args) < 2 {
+			return true
+		}
+		nOpen++
+		okArgs := true
+		if id, isID := ast.Unparen(call.Args[1]).(*ast.Ident); isID {
+			v, _ := info.Uses[id].(*types.Var)
+			if flagVar == nil {
+				flagVar = v
+			}
+			okArgs = okArgs && v == flagVar && v != nil
+		} else {
+			okArgs = false
+		}
+		if id, isID := ast.Unparen(call.Args[0]).(*ast.Ident); isID {
+			v, _ := info.Uses[id].(*types.Var)
+			if nameVar == nil {
+				nameVar = v
+			}
+			okArgs = okArgs && v == nameVar && v != nil
+		} else {
+			okArgs = false
+		}
+		c.check(okArgs, "put.exclusive.every-open", callKey(f, call), p.Pos(call.Pos()), "OpenFile(name, flag, …) with the shared name and flag variables", "an OpenFile of Put does not use the shared (name, flag) variables: `"+exprString(call.Args[0])+", "+exprString(call.Args[1])+"` — a create-if-absent write through this operand is not arbitrated by O_EXCL on the key")
+		return true
+	})
+	c.check(nOpen == 2, "put.exclusive.every-open", f.ID+":sites", p.Pos(f.Decl.Pos()), "two OpenFile sites (WriterTo and PipeIO operands)", "expected the two OpenFile sites of Put, found "+itoa(nOpen))
+	if flagVar == nil || nameVar == nil {
+		return
+	}
+	// flags
+	{
+		want := constInt(p, "os", "O_CREATE") | constInt(p, "os", "O_WRONLY")
+		excl := constInt(p, "os", "O_EXCL")
+		okBase, alwaysExcl, condExcl := false, false, false
+		nDefs := 0
+		ast.Inspect(f.Decl.Body, func(nd ast.Node) bool {
+			as, ok := nd.(*ast.AssignStmt)
+			if !ok || len(as.Lhs) != 1 || !isVar(info, as.Lhs[0], flagVar) {
+				return true
+			}
+			nDefs++
+			tv, isConst := info.Types[as.Rhs[0]]
+			if !isConst || tv.Value == nil {
+				return true
+			}
+			have := parseInt(tv.Value.String())
+			switch as.Tok {
+			case token.DEFINE, token.ASSIGN:
+				okBase = have&want == want
+				alwaysExcl = have&excl != 0
+			case token.OR_ASSIGN:
+				if have == excl {
+					if ifs, ok := b.parent[b.parent[as]].(*ast.IfStmt); ok && describeExpr(f, ifs.Cond, 0) == exclParam {
+						condExcl = true
+					}
+				}
+			}
+			return true
+		})
+		okFlags := okBase && ((alwaysExcl && nDefs == 1) || (!alwaysExcl && condExcl && nDefs == 2))
+		c.check(okFlags, "put.exclusive.flag", f.ID, p.Pos(f.Decl.Pos()), "flags hold O_CREATE|O_WRONLY, and O_EXCL whenever the write is create-if-absent", "the open flags no longer hold O_CREATE|O_WRONLY with O_EXCL on every create-if-absent write (set once, or added exactly under `if exclusive`): create-if-absent is lost")
+		// name: the key, except where reassigned on the non-exclusive path
+		okName := false
+		staged := false
+		badDef := ""
+		for _, d := range defsOfVarWithIndex(f, nameVar) {
+			if d.rhs == nil {
+				badDef = "a definition without value"
+				continue
+			}
+			if describeExpr(f, d.rhs, 1) == "param#1" {
+				okName = true
+				continue
+			}
+			if nonExclusiveOnly(d.stmt) {
+				staged = true
+				continue
+			}
+			badDef = exprString(d.rhs)
+		}
+		c.check(okName && badDef == "", "put.exclusive.every-open", f.ID+":name", p.Pos(f.Decl.Pos()), "on a create-if-absent write the name opened is the key", "on a create-if-absent write Put opens something else than the key (`"+badDef+"`): O_EXCL no longer arbitrates between writers of the key")
+		// overwrite staged
+		nRename := 0
+		ast.Inspect(f.Decl.Body, func(nd ast.Node) bool {
+			if call, ok := nd.(*ast.CallExpr); ok && strings.HasSuffix(calleeID(info, call), "afero.Fs.Rename") && len(call.Args) == 2 {
+				if isVar(info, call.Args[0], nameVar) && describeExpr(f, call.Args[1], 0) == "param#1" {
+					nRename++
+				}
+			}
+			return true
+		})
+		c.check((staged || alwaysExcl && false) && nRename == 1 && alwaysExcl, "put.overwrite.staged", f.ID, p.Pos(f.Decl.Pos()),
+			"an overwrite is written to a staging name (opened with O_EXCL) and renamed onto the key",
+			"an overwriting Put opens the key itself (O_TRUNC in place) or no longer renames its staging file onto the key: a concurrent reader — or a writer of the same content verifying what it just wrote — sees a truncated record")
+	}
+	// removals
+	nRemove := 0
+	ast.Inspect(f.Decl.Body, func(nd ast.Node) bool {
+		call, ok := nd.(*ast.CallExpr)
+		if !ok {
+			return true
+		}
+		id := calleeID(info, call)
+		if !(strings.HasSuffix(id, "afero.Fs.Remove") || strings.HasSuffix(id, "afero.Fs.RemoveAll") || strings.HasSuffix(id, "afero.Fs.Rename")) {
+			return true
+		}
+		nRemove++
+		okOperand := len(call.Args) >= 1 && isVar(info, call.Args[0], nameVar)
+		c.check(okOperand && nonExclusiveOnly(call), "put.no-remove", callKey(f, call), p.Pos(call.Pos()),
+			"only the staging name is removed/renamed, and only on the non-exclusive path",
+			"Put removes or renames `"+exprString(call.Args[0])+"` on a path an exclusive write can take (or the key itself): when an exclusive write loses (file exists) this unlinks the winner's record")
+		return true
+	})
+	if nRemove == 0 {
+		c.ok("put.no-remove", f.ID, p.Pos(f.Decl.Pos()), "Put never removes or renames a key")
+	}
+}
+
+// checkLeafSizeFromDescriptor (C04, C13, C14): the leaf size a root blob is decoded with is the one recorded in the
+// bundle's descriptor: every cafs.LeafSize(x) option and cafs.LeavesForHash(_, _, x, _) argument of pkg/core and
+// pkg/fuse is a `.LeafSize` selection (directly, or a parameter that every caller fills with one). With another size
+// the root check fails — and the index builder, which tolerates a "corrupted root", silently leaves the leaves out.
+func checkLeafSizeFromDescriptor(c *Ctx, rule string, pkgs ...string) {
+	p := c.P
+	n := 0
+	var resolve func(f *FuncInfo, e ast.Expr, depth int) (bool, string)
+	resolve = func(f *FuncInfo, e ast.Expr, depth int) (bool, string) {
+		d := describeExprAt(f, e)
+		if strings.HasSuffix(d, ".LeafSize") && !strings.HasPrefix(d, "global:") {
+			return true, d
+		}
+		if strings.HasPrefix(d, "param#") && depth < 2 {
+			var idx int
+			if _, err := fmt.Sscanf(d, "param#%d", &idx); err != nil {
+				return false, d
+			}
+			sites := callersOf(p, f.ID)
+			if len(sites) == 0 {
+				return false, d + " (no caller)"
+			}
+			for _, cs := range sites {
+				if idx >= len(cs.Call.Args) {
+					return false, d + " (variadic caller)"
+				}
+				if ok, dd := resolve(cs.Fn, cs.Call.Args[idx], depth+1); !ok {
+					return false, "argument `" + dd + "` of the call in " + cs.Fn.ID
+				}
+			}
+			return true, d
+		}
+		return false, d
+	}
+	for _, pk := range pkgs {
+		for _, f := range p.FuncsIn(pk) {
+			if f.Decl.Body == nil {
+				continue
+			}
+			info := f.Info()
+			ast.Inspect(f.Decl.Body, func(nd ast.Node) bool {
+				call, ok := nd.(*ast.CallExpr)
+				if !ok {
+					return true
+				}
+				var arg ast.Expr
+				switch calleeID(info, call) {
+				case "pkg/cafs.LeafSize":
+					if len(call.Args) == 1 {
+						arg = call.Args[0]
+					}
+				case "pkg/cafs.LeavesForHash":
+					if len(call.Args) == 4 {
+						arg = call.Args[2]
+					}
+				}
+				if arg == nil {
+					return true
+				}
+				n++
+				ok2, d := resolve(f, arg, 0)
+				c.check(ok2, rule, callKey(f, call), p.Pos(call.Pos()),
+					"leaf size taken from the bundle descriptor",
+					"the leaf size given to "+shortCallee(calleeID(info, call))+" in "+f.ID+" is "+d+", not the LeafSize recorded in the bundle descriptor: root blobs of bundles written with another leaf size fail their check (the index builder then drops their leaf keys without error, and delete-unused removes referenced blobs)")
+				return true
+			})
+		}
+	}
+	if n < 6 {
+		c.fail(rule, "leaf-size:sites", "-", "expected at least 6 leaf-size consumers in "+strings.Join(pkgs, ",")+", found "+itoa(n))
+	}
+}
+
+// checkChunkLimitCountsSentKeys (C13, C14): the index is uploaded in chunks of at most maxKeys keys; the uploader stops
+// when a chunk adds no key. dbReader.iterateKV must therefore count against the limit only the keys it sends: keys
+// already marked as uploaded (non-empty value) are skipped before the limit counter moves, or every chunk after the
+// first is empty and the index ends after maxKeys keys.
+func checkChunkLimitCountsSentKeys(c *Ctx, rule string) {
+	p := c.P
+	f := p.Func("pkg/core.dbReader.iterateKV")
+	info := f.Info()
+	var lit *ast.FuncLit
+	for _, l := range f.Lits {
+		if sig, ok := info.TypeOf(l).(*types.Signature); ok && sig.Params().Len() == 0 && sig.Results().Len() == 1 {
+			lit = l
+			break
+		}
+	}
+	if lit == nil {
+		c.softUndecided("%s: iterateKV no longer returns a func() error", rule)
+		return
+	}
+	b := p.LitBody(f, lit)
+	// the limit counter: the variable compared with recv.maxKeys
+	var counter *types.Var
+	ast.Inspect(lit.Body, func(nd ast.Node) bool {
+		be, ok := nd.(*ast.BinaryExpr)
+		if !ok {
+			return true
+		}
+		for i, side := range []ast.Expr{be.X, be.Y} {
+			// a local counter compared with a field of the reader (the per-chunk maximum)
+			if sel, ok := ast.Unparen(side).(*ast.SelectorExpr); ok && describeExpr(f, sel.X, 0) == "recv" && info.Selections[sel] != nil {
+				if id, ok := ast.Unparen([]ast.Expr{be.Y, be.X}[i]).(*ast.Ident); ok {
+					if v, ok := info.Uses[id].(*types.Var); ok && !v.IsField() && paramIndex(f, v) < 0 {
+						counter = v
+					}
+				}
+			}
+		}
+		return true
+	})
+	if counter == nil {
+		c.fail(rule, f.ID, p.Pos(f.Decl.Pos()), "no counter compared with r.maxKeys found in iterateKV: the per-chunk limit is gone")
+		return
+	}
+	// the value variable of iterator.Item()
+	var val *types.Var
+	if vs := lhsVars(info, lit.Body, func(e ast.Expr) bool {
+		call, ok := ast.Unparen(e).(*ast.CallExpr)
+		return ok && strings.HasSuffix(calleeID(info, call), ".Item")
+	}); len(vs) == 3 {
+		val = vs[1]
+	}
+	if val == nil {
+		c.softUndecided("%s: iterateKV no longer binds key, val, err := iterator.Item()", rule)
+		return
+	}
+	isSkipTest := func(cond ast.Expr) int { // +1: true edge means "already uploaded"
+		be, ok := ast.Unparen(cond).(*ast.BinaryExpr)
+		if !ok {
+			return 0
+		}
+		call, ok := ast.Unparen(be.X).(*ast.CallExpr)
+		if !ok || calleeID(info, call) != "builtin.len" || len(call.Args) != 1 || !isVar(info, call.Args[0], val) {
+			return 0
+		}
+		tv, ok := info.Types[be.Y]
+		if !ok || tv.Value == nil || tv.Value.ExactString() != "0" {
+			return 0
+		}
+		switch be.Op {
+		case token.GTR, token.NEQ:
+			return +1
+		case token.EQL:
+			return -1
+		}
+		return 0
+	}
+	const fresh, filtered = 1, 2
+	bad, nInc := 0, 0
+	b.run(flowSpec{entry: fresh,
+		node: func(n ast.Node, s uint64) uint64 {
+			// a new item resets the state
+			for _, call := range callsIn(n) {
+				if strings.HasSuffix(calleeID(info, call), ".Item") {
+					s = fresh
+				}
+			}
+			moves := false
+			switch x := n.(type) {
+			case *ast.IncDecStmt:
+				moves = isVar(info, x.X, counter)
+			case *ast.AssignStmt:
+				for _, l := range x.Lhs {
+					if isVar(info, l, counter) && x.Tok != token.DEFINE {
+						moves = true
+					}
+				}
+			}
+			if moves {
+				nInc++
+				if s&fresh != 0 {
+					bad++
+				}
+			}
+			return s
+		},
+		edge: func(blk *cfg.Block, i int, s uint64) uint64 {
+			cond := condOf(blk)
+			if cond == nil {
+				return s
+			}
+			r := isSkipTest(cond)
+			if r == 0 {
+				return s
+			}
+			uploadedEdge := 0
+			if r < 0 {
+				uploadedEdge = 1
+			}
+			if i == uploadedEdge {
+				return s // stays fresh: this is the skipped item
+			}
+			return filtered
+		}})
+	c.check(bad == 0 && nInc > 0, rule, f.ID, p.Pos(f.Decl.Pos()),
+		"the per-chunk limit counter moves only for keys not yet marked as uploaded",
+		"iterateKV counts against the per-chunk limit keys that are skipped as already uploaded: every chunk after the first yields nothing, the uploader stops at the first empty chunk and the index holds only the first maxKeys keys — delete-unused then removes referenced blobs")
+}
+
+// checkMountDataSource (C17): a read-only mount serves bytes either streamed from the blob store or from a staging area
+// that this very mount filled with core.Publish (which fails on an incomplete or pre-existing download). Every
+// successful return of NewReadOnlyFS follows core.Publish, or core.PublishMetadata inside the `streamed` branch: a
+// staging area found on disk (a descriptor written first by an interrupted download) is never trusted.
+func checkMountDataSource(c *Ctx, rule string) {
+	p := c.P
+	f := p.Func("pkg/fuse.NewReadOnlyFS")
+	b := p.BodyOf(f)
+	info := f.Info()
+	bad, nS := b.mustPassBeforeSuccess(callTo("pkg/core.Publish", "pkg/core.PublishMetadata"))
+	c.check(len(bad) == 0 && nS > 0, rule, f.ID, p.Pos(f.Decl.Pos()),
+		"every successful mount follows core.Publish (staged) or core.PublishMetadata (streamed)",
+		"NewReadOnlyFS can succeed without having downloaded the bundle itself (core.Publish) nor set up streaming: it then serves whatever a previous, possibly interrupted, download left in the staging area — reads succeed with holes, short counts or missing tails")
+	// the condition under which the streaming backend (cafs.New) is set up
+	enclosingConds := func(call *ast.CallExpr) map[string]bool {
+		out := map[string]bool{}
+		for child, par := ast.Node(call), f.parentOf(call); par != nil; child, par = par, f.parentOf(par) {
+			if ifs, ok := par.(*ast.IfStmt); ok && child == ast.Node(ifs.Body) {
+				out[describeExpr(f, ifs.Cond, 0)] = true
+			}
+		}
+		return out
+	}
+	streamConds := map[string]bool{}
+	ast.Inspect(f.Decl.Body, func(nd ast.Node) bool {
+		if call, ok := nd.(*ast.CallExpr); ok && calleeID(info, call) == "pkg/cafs.New" {
+			for k := range enclosingConds(call) {
+				streamConds[k] = true
+			}
+		}
+		return true
+	})
+	okStream := len(streamConds) > 0
+	ast.Inspect(f.Decl.Body, func(nd ast.Node) bool {
+		call, ok := nd.(*ast.CallExpr)
+		if !ok || calleeID(info, call) != "pkg/core.PublishMetadata" {
+			return true
+		}
+		guarded := false
+		for k := range enclosingConds(call) {
+			if streamConds[k] {
+				guarded = true
+			}
+		}
+		if !guarded {
+			okStream = false
+		}
+		return true
+	})
+	c.check(okStream, rule, f.ID+":metadata-only-when-streamed", p.Pos(f.Decl.Pos()),
+		"metadata-only publication happens only for streamed mounts",
+		"NewReadOnlyFS publishes only the metadata for a mount that is not streamed: its files are never downloaded")
+}
+
+// checkWriteKeepsFileSize (C18): a write inside a file does not shrink it. The size attribute set by WriteFile is the
+// size of the backing file it just wrote (Stat().Size()), or is only ever raised (assignment under a comparison with
+// the current attr.Size): never `offset + n` unconditionally.
+func checkWriteKeepsFileSize(c *Ctx, rule string) {
+	p := c.P
+	f := p.Func("pkg/fuse.fsMutable.WriteFile")
+	n := 0
+	ast.Inspect(f.Decl.Body, func(nd ast.Node) bool {
+		as, ok := nd.(*ast.AssignStmt)
+		if !ok {
+			return true
+		}
+		for i, l := range as.Lhs {
+			if i >= len(as.Rhs) || !isInodeSize(f.Info(), l) {
+				continue
+			}
+			n++
+			d := describeExprAt(f, as.Rhs[i])
+			fromStat := strings.Contains(d, "getPathToBackingFile(param#1.Inode)") && strings.HasSuffix(strings.TrimSuffix(d, ")"), ".Stat()#0.Size()")
+			raisedOnly := false
+			for child, par := ast.Node(as), f.parentOf(as); par != nil; child, par = par, f.parentOf(par) {
+				if ifs, ok := par.(*ast.IfStmt); ok && child == ast.Node(ifs.Body) {
+					if be, ok := ast.Unparen(ifs.Cond).(*ast.BinaryExpr); ok && (be.Op == token.GTR || be.Op == token.LSS) {
+						x, y := describeExprAt(f, be.X), describeExprAt(f, be.Y)
+						rhs := describeExprAt(f, as.Rhs[i])
+						if (be.Op == token.GTR && isInodeSize(f.Info(), be.Y) && x == rhs) || (be.Op == token.LSS && isInodeSize(f.Info(), be.X) && y == rhs) {
+							raisedOnly = true
+						}
+					}
+				}
+			}
+			c.check(fromStat || raisedOnly, rule, f.ID+":attr.Size", p.Pos(as.Pos()),
+				"the size attribute is the size of the backing file after the write",
+				"WriteFile sets the size attribute from `"+exprString(as.Rhs[i])+"`: a write that ends before the end of the file shrinks the size the mount reports (reads and the commit then truncate the file)")
+		}
+		return true
+	})
+	if n == 0 {
+		c.fail(rule, f.ID, p.Pos(f.Decl.Pos()), "WriteFile no longer updates the size attribute of the node: a file extended by a write keeps its old size")
+	}
+}
+
+// checkWALCollectorDrains (C19): every parallel read of a listing sends exactly one message (entry or oops) on an
+// unbuffered channel and releases its connection slot only afterwards. The collector therefore leaves its loop only
+// when it has counted as many messages as reads were issued: each receive of an entry or an error moves the counter,
+// and every return sits under `counter == total`. Leaving earlier strands the readers, and with them slots of the
+// WAL-wide connection semaphore: later listings block forever.
+func checkWALCollectorDrains(c *Ctx, rule string) {
+	p := c.P
+	f := p.Func("pkg/wal.WAL.collectParallelResponses")
+	info := f.Info()
+	var loop *ast.ForStmt
+	for _, st := range f.Decl.Body.List {
+		if l, ok := st.(*ast.ForStmt); ok {
+			loop = l
+		}
+	}
+	if loop == nil {
+		c.softUndecided("%s: collectParallelResponses has no top-level for loop", rule)
+		return
+	}
+	var sel *ast.SelectStmt
+	for _, st := range loop.Body.List {
+		if s, ok := st.(*ast.SelectStmt); ok {
+			sel = s
+		}
+	}
+	if sel == nil {
+		c.softUndecided("%s: the collector loop has no select", rule)
+		return
+	}
+	// total: the variable receiving from the count channel
+	var total types.Object
+	// the channels are told apart by what they carry (never by name): *model.Entry = one read's entry, error = one
+	// read's failure, int = the number of reads issued
+	chanField := func(e ast.Expr) string {
+		u, ok := ast.Unparen(e).(*ast.UnaryExpr)
+		if !ok || u.Op != token.ARROW {
+			return ""
+		}
+		ch, ok := info.TypeOf(u.X).Underlying().(*types.Chan)
+		if !ok {
+			return ""
+		}
+		switch el := ch.Elem().(type) {
+		case *types.Pointer:
+			if namedTypeID(el.Elem()) == "pkg/model.Entry" {
+				return "entry"
+			}
+		case *types.Basic:
+			if el.Kind() == types.Int {
+				return "count"
+			}
+		case *types.Named:
+			if isErrorType(el) {
+				return "oops"
+			}
+		}
+		return types.TypeString(ch.Elem(), nil)
+	}
+	type clause struct {
+		cc   *ast.CommClause
+		from string
+	}
+	var clauses []clause
+	for _, st := range sel.Body.List {
+		cc := st.(*ast.CommClause)
+		from := ""
+		switch x := cc.Comm.(type) {
+		case *ast.AssignStmt:
+			from = chanField(x.Rhs[0])
+			if from == "count" {
+				if id, ok := x.Lhs[0].(*ast.Ident); ok {
+					total = info.ObjectOf(id)
+				}
+			}
+		case *ast.ExprStmt:
+			from = chanField(x.X)
+		}
+		clauses = append(clauses, clause{cc, from})
+	}
+	if total == nil {
+		c.softUndecided("%s: no clause receives the number of issued reads", rule)
+		return
+	}
+	// counter: compared for equality with total
+	var counter types.Object
+	ast.Inspect(loop, func(nd ast.Node) bool {
+		be, ok := nd.(*ast.BinaryExpr)
+		if !ok || be.Op != token.EQL {
+			return true
+		}
+		x, xo := ast.Unparen(be.X).(*ast.Ident)
+		y, yo := ast.Unparen(be.Y).(*ast.Ident)
+		if xo && yo {
+			if info.Uses[y] == total {
+				counter = info.Uses[x]
+			} else if info.Uses[x] == total {
+				counter = info.Uses[y]
+			}
+		}
+		return true
+	})
+	if counter == nil {
+		c.fail(rule, f.ID, p.Pos(loop.Pos()), "the collector no longer compares a message counter with the number of issued reads")
+		return
+	}
+	isDone := func(cond ast.Expr) bool {
+		be, ok := ast.Unparen(cond).(*ast.BinaryExpr)
+		if !ok || be.Op != token.EQL {
+			return false
+		}
+		x, xo := ast.Unparen(be.X).(*ast.Ident)
+		y, yo := ast.Unparen(be.Y).(*ast.Ident)
+		return xo && yo && ((info.Uses[x] == counter && info.Uses[y] == total) || (info.Uses[x] == total && info.Uses[y] == counter))
+	}
+	nMsg := 0
+	for _, cl := range clauses {
+		key := f.ID + ":recv-" + cl.from
+		// every return of the clause is under `counter == total`
+		okRet := true
+		ast.Inspect(cl.cc, func(nd ast.Node) bool {
+			if _, isLit := nd.(*ast.FuncLit); isLit {
+				return false
+			}
+			r, ok := nd.(*ast.ReturnStmt)
+			if !ok {
+				return true
+			}
+			guarded := false
+			for child, par := ast.Node(r), f.parentOf(r); par != nil && par != ast.Node(cl.cc); child, par = par, f.parentOf(par) {
+				if ifs, ok := par.(*ast.IfStmt); ok && child == ast.Node(ifs.Body) && isDone(ifs.Cond) {
+					guarded = true
+				}
+			}
+			if !guarded {
+				okRet = false
+			}
+			return true
+		})
+		c.check(okRet, rule, key+":return", p.Pos(cl.cc.Pos()),
+			"the collector returns from this clause only when every issued read has reported",
+			"the collector can return from its `"+cl.from+"` clause before it counted all issued reads: the reads still in flight block on their unbuffered send and never release their connection slot — after enough failed listings every later ListEntries hangs")
+		if cl.from == "entry" || cl.from == "oops" {
+			nMsg++
+			moved := false
+			for _, st := range cl.cc.Body {
+				if inc, ok := st.(*ast.IncDecStmt); ok && inc.Tok == token.INC {
+					if id, ok := ast.Unparen(inc.X).(*ast.Ident); ok && info.Uses[id] == counter {
+						moved = true
+					}
+				}
+			}
+			c.check(moved, rule, key+":counted", p.Pos(cl.cc.Pos()),
+				"each message of a reader moves the counter",
+				"a message received from `"+cl.from+"` is not counted: the collector waits forever for a report that already came")
+		}
+	}
+	if nMsg != 2 {
+		c.fail(rule, f.ID+":clauses", p.Pos(sel.Pos()), "expected the collector to receive from the entry and oops channels, found "+itoa(nMsg)+" such clauses")
+	}
+}
+
+// checkPutSourceFreshPerAttempt (C19 and the upload paths): the reader handed to a store Put is consumed by the
+// attempt. A Put issued inside a loop (retries, batches) must build its reader inside that loop: a reader defined
+// outside is empty on the second iteration, and the attempt "succeeds" with an empty or truncated object.
+func checkPutSourceFreshPerAttempt(c *Ctx, rule string, pkgs ...string) {
+	p := c.P
+	n := 0
+	for _, pk := range pkgs {
+		for _, f := range p.FuncsIn(pk) {
+			if f.Decl.Body == nil {
+				continue
+			}
+			info := f.Info()
+			ast.Inspect(f.Decl.Body, func(nd ast.Node) bool {
+				call, ok := nd.(*ast.CallExpr)
+				if !ok {
+					return true
+				}
+				idx := -1
+				switch calleeID(info, call) {
+				case "pkg/storage.Store.Put", "pkg/storage.StoreCRC.PutCRC":
+					idx = 2
+				case "pkg/cafs.Fs.Put":
+					idx = 1
+				}
+				if idx < 0 || idx >= len(call.Args) {
+					return true
+				}
+				n++
+				id, isID := ast.Unparen(call.Args[idx]).(*ast.Ident)
+				if !isID {
+					return true
+				}
+				v, _ := info.Uses[id].(*types.Var)
+				if v == nil {
+					return true
+				}
+				// innermost enclosing loop within the same function body (not crossing a go/func literal boundary)
+				var loop ast.Node
+				for par := f.parentOf(call); par != nil; par = f.parentOf(par) {
+					if _, isLit := par.(*ast.FuncLit); isLit {
+						break
+					}
+					switch par.(type) {
+					case *ast.ForStmt, *ast.RangeStmt:
+						loop = par
+					}
+					if loop != nil {
+						break
+					}
+				}
+				if loop == nil {
+					return true
+				}
+				fresh := false
+				for _, d := range defsOfVarWithIndex(f, v) {
+					if encloses(loop, d.start) {
+						fresh = true
+					}
+				}
+				if paramIndex(f, v) >= 0 && !fresh {
+					// a stream parameter put once per loop iteration
+					fresh = false
+				}
+				c.check(fresh, rule, callKey(f, call), p.Pos(call.Pos()),
+					"the reader of a Put issued in a loop is built inside that loop",
+					"`"+id.Name+"`, the source of a Put issued inside a loop of "+f.ID+", is defined outside the loop: the first attempt consumes it, a later iteration (retry after a transient failure) stores an empty or truncated object and reports success")
+				return true
+			})
+		}
+	}
+	if n < 5 {
+		c.fail(rule, "put:sites", "-", "expected at least 5 Put call sites in "+strings.Join(pkgs, ",")+", found "+itoa(n))
+	}
+}
+
+// checkStateToKeyTable (C12, C20): the key of a diamond (split) descriptor depends on its state. Only the initial state
+// maps to the "-running" object; every other state — done and canceled alike — maps to the one final object, which is
+// what lets the no-overwrite write arbitrate between a commit and a cancel. The table is computed per state constant
+// by following the builder's tests on its state parameter.
+func checkStateToKeyTable(c *Ctx, rule string) {
+	p := c.P
+	type spec struct {
+		builder, initial, typ string
+		stateIdx              int
+		runningFile, doneFile string
+	}
+	for _, sp := range []spec{
+		{"pkg/model.GetArchivePathToDiamond", "DiamondInitialized", "DiamondState", 2, "diamond-running.yaml", "diamond-done.yaml"},
+		{"pkg/model.GetArchivePathToSplit", "SplitRunning", "SplitState", 3, "split-running.yaml", "split-done.yaml"},
+	} {
+		f := p.Func(sp.builder)
+		pkg := f.Obj.Pkg()
+		n := 0
+		names := pkg.Scope().Names()
+		for _, nm := range names {
+			k, ok := pkg.Scope().Lookup(nm).(*types.Const)
+			if !ok {
+				continue
+			}
+			named, ok := k.Type().(*types.Named)
+			if !ok || named.Obj().Name() != sp.typ {
+				continue
+			}
+			n++
+			ts, msg := evalBuilderForState(p, f, sp.stateIdx, k)
+			if msg != "" {
+				c.softUndecided("%s: %s(state=%s) cannot be evaluated: %s", rule, sp.builder, nm, msg)
+				continue
+			}
+			want := sp.doneFile
+			if nm == sp.initial {
+				want = sp.runningFile
+			}
+			ok2 := len(ts) > 0
+			got := []string{}
+			for _, t := range ts {
+				s := t.instantiate(map[int]string{0: "R", 1: "D", 2: "S"})
+				got = append(got, s)
+				if !strings.HasSuffix(s, "/"+want) {
+					ok2 = false
+				}
+			}
+			c.check(ok2, rule, sp.builder+":"+nm, p.Pos(f.Decl.Pos()),
+				"state "+nm+" maps to …/"+want,
+				sp.builder+" maps state "+nm+" to "+strings.Join(got, " | ")+", expected the object …/"+want+": terminal states must share the final key (the no-overwrite write arbitrates commit against cancel) and only the initial state uses the running key")
+		}
+		if n < 2 {
+			c.fail(rule, sp.builder+":states", "-", "expected at least 2 constants of type "+sp.typ+", found "+itoa(n))
+		}
+	}
+}
+
+// isInodeSize: e selects the Size field of a fuseops.InodeAttributes value.
+func isInodeSize(info *types.Info, e ast.Expr) bool {
+	sel, ok := ast.Unparen(e).(*ast.SelectorExpr)
+	if !ok || sel.Sel.Name != "Size" {
+		return false
+	}
+	return strings.HasSuffix(namedTypeID(info.TypeOf(sel.X)), "fuseops.InodeAttributes")
 }
